@@ -738,6 +738,29 @@ modules_in(const struct lyd_node *first)
 }
 
 static int
+has_opaque(const struct lyd_node *n)
+{
+    const struct lyd_node *c;
+
+    if (!n->schema) return 1;
+    LY_LIST_FOR(lyd_child(n), c) {
+        if (has_opaque(c)) return 1;
+    }
+    return 0;
+}
+
+static int
+has_opaque_siblings(const struct lyd_node *first)
+{
+    const struct lyd_node *n;
+
+    LY_LIST_FOR(first, n) {
+        if (has_opaque(n)) return 1;
+    }
+    return 0;
+}
+
+static int
 all_toplevel_schema(const struct lyd_node *first)
 {
     const struct lyd_node *n;
@@ -826,6 +849,7 @@ run_op(char *op, int last)
             if ((t->schema->nodetype & LYD_NODE_INNER) &&
                     (!n->schema || lysc_data_parent(n->schema) == t->schema) && is_multi_move(n)) REFUSE("OutOfFragment");
         }
+        if (is_multi_move(n)) MARK("F54");
         done(lyd_insert_child(t, n), search);
     } else if (!strcmp(a[0], "ins_sibling") && na == 3) {
         struct lyd_node *n = node_arg(a[1]), *t = node_arg(a[2]);
@@ -842,6 +866,7 @@ run_op(char *op, int last)
         }
         if (n != t && n->schema && !t->schema) MARK("F51");   /* no schema check at all next to an opaque sibling */
         if (n != t && lyd_first_sibling(t) == n) MARK("F50");
+        if (n != t && is_multi_move(n)) MARK("F54");
         done(lyd_insert_sibling(t, n, NULL), search);
     } else if ((!strcmp(a[0], "ins_before") || !strcmp(a[0], "ins_after")) && na == 3) {
         struct lyd_node *n = node_arg(a[1]), *t = node_arg(a[2]);
@@ -943,11 +968,13 @@ run_op(char *op, int last)
             LY_LIST_FOR(lyd_first_sibling(top), it) register_new(it);
         }
         done(r, search);
-    } else if (law_mode && !strcmp(a[0], "merge") && na == 4) {
+    } else if (law_mode && (!strcmp(a[0], "merge") || !strcmp(a[0], "merge_opaq")) && na == 4) {
         /* merge,<src>,<dst>,<opts>: both must be top-level nodes; with LYD_MERGE_DESTRUCT the source ids are dropped */
         struct lyd_node *src = node_arg(a[1]), *dst = node_arg(a[2]);
         if (!src || !dst) REFUSE("NoNode");
         if (src->parent || dst->parent) REFUSE("NotTop");
+        if (!strcmp(a[0], "merge") && (has_opaque(src) || has_opaque_siblings(lyd_first_sibling(dst)))) REFUSE("OpaqInMerge");
+        if (!strcmp(a[0], "merge_opaq")) MARK("F55");
         dst = lyd_first_sibling(dst);
         if (!all_toplevel_schema(dst) || !src->schema || lysc_data_parent(src->schema)) REFUSE("NotTop");
         if (lyd_first_sibling(src) == dst) REFUSE("SameTree");
@@ -989,6 +1016,49 @@ run_op(char *op, int last)
     }
 }
 
+#ifdef SIB_WB
+static void
+rb_shape(const struct rb_node *r)
+{
+    if (!r) { fputs(" .", stdout); return; }
+    fprintf(stdout, " %c%s", r->color == RB_RED ? 'R' : 'B', lyd_get_value(r->dnode));
+    rb_shape(r->left);
+    rb_shape(r->right);
+}
+
+static void
+rb_op(const char *id, char *keys)
+{
+    const struct lysc_node *cont = NULL, *ll = NULL, *s = NULL;
+    struct lyd_node *c = NULL, *n;
+    char *k[1024];
+    int nk, i;
+
+    for (i = 0; i < cur->nsn && !cont; i++) {
+        if (cur->sparent[i] < 0 && cur->snode[i]->nodetype == LYS_CONTAINER) cont = cur->snode[i];
+    }
+    while (cont && (s = lys_getnext(s, cont, NULL, 0))) {
+        if (s->nodetype == LYS_LEAFLIST && (s->flags & LYS_ORDBY_SYSTEM) && !strcmp(ktype_of(s), "i32")) { ll = s; break; }
+    }
+    if (!ll || lyd_new_inner(NULL, cont->module, cont->name, 0, &c)) { vp_reply(id, "err NoList"); return; }
+    nk = split(keys, ',', k, 1024);
+    for (i = 0; i < nk; i++) {
+        if (lyd_new_term(c, ll->module, ll->name, k[i], 0, NULL)) { lyd_free_all(c); vp_reply(id, "err BadKey"); return; }
+    }
+    fprintf(stdout, "%s ok", id);
+    LY_LIST_FOR(lyd_child(c), n) {
+        if (n->schema == ll) break;
+    }
+    rb_shape(n ? lyds_get_rb_tree(n, NULL) : NULL);
+    /* and the instances in sibling order */
+    fputs(" |", stdout);
+    LY_LIST_FOR(lyd_child(c), n) if (n->schema == ll) fprintf(stdout, " %s", lyd_get_value(n));
+    fputc('\n', stdout);
+    fflush(stdout);
+    lyd_free_all(c);
+}
+#endif
+
 /* a request that does not finish (a cyclic structure inside libyang): say so and give up this process */
 static void
 on_alarm(int sig)
@@ -1011,6 +1081,18 @@ sib_main(void)
     while (vp_next(&r)) {
         const char *id = r.tok[0];
 
+        if (r.ntok == 7 && !strcmp(r.tok[1], "sib") && !strcmp(r.tok[2], "rb")) {
+            /* rb <variant> <desc> <yang> <k1,k2,...>: insert the values one by one into the first system-ordered
+             * int leaf-list of the first top-level container and print the shape of its red-black tree (pre-order) */
+#ifdef SIB_WB
+            cur = get_ctx(r.tok[5]);
+            if (!cur) { vp_reply(id, "err BadSchema"); continue; }
+            rb_op(id, r.tok[6]);
+#else
+            vp_reply(id, "err NoWb");
+#endif
+            continue;
+        }
         if (r.ntok != 7 || strcmp(r.tok[1], "sib") || strcmp(r.tok[2], "run")) {
             vp_reply(r.ntok ? id : "?", "err BadOp");
             continue;
